@@ -259,6 +259,11 @@ func oracleC13(v *View, vd *Verdict) {
 	for _, sv := range v.Sess {
 		c, st := terminationCause(v, sv)
 		if c.idx < 0 {
+			// ended for a reason that is not among the causes above (a write to the client failed, a retry
+			// budget ran out, ...): "when it ends, the broker connection is closed" holds all the same
+			if sv.EndT >= 0 && sv.Dialed && (sv.MqCloseT < 0 || sv.MqCloseT > sv.EndT+pollInterval+slack(v)) {
+				vd.Add("C13", "C13/broker-conn-not-closed/cause=other", "session %s ended at %d, broker connection closed at %d", sv.Name, sv.EndT, sv.MqCloseT)
+			}
 			continue
 		}
 		vd.Trigger = true
@@ -273,7 +278,8 @@ func oracleC13(v *View, vd *Verdict) {
 		// DISCONNECT to the client exactly when it was active or awake and did not disconnect itself
 		got := 0
 		for _, e := range sv.Evs {
-			if e.Idx > c.idx && e.Kind == EvG2C && e.SNErr == nil && e.SN.Type == refsn.DISCONNECT {
+			// (a DISCONNECT whose write failed counts: the gateway did its part)
+			if e.Idx > c.idx && (e.Kind == EvG2C || e.Kind == EvG2CErr) && e.SNErr == nil && e.SN.Type == refsn.DISCONNECT {
 				got++
 			}
 		}
@@ -432,12 +438,21 @@ func genC13(g *Gen, idx int) *Plan {
 	}
 	at := sg.t + g.Range(0, 1500)
 	causes := []string{"shutdown", "disconnect", "fin", "rst", "garbage", "illegal", "connect-timeout", "shutdown"}
+	if g.Bool(0.5) {
+		causes[7] = "write-error"
+	}
 	ck := causes[causeK]
 	p.Family = fmt.Sprintf("C13-life%d-%s", kind, ck)
 	sg.t = at
 	switch ck {
 	case "shutdown":
 		p.Cfg.ShutdownAtMs = at
+	case "write-error":
+		// not one of the causes the property names: from some write on, the gateway's writes to the client
+		// fail; whenever and however the session ends then, it must release everything (the final
+		// shutdown at the end of the run is the cause that is judged)
+		p.Cfg.SN.Rules = append(p.Cfg.SN.Rules, Rule{Dir: "g2c", Skip: int(g.Range(0, 6)), Count: 1000, Act: "werr"})
+		p.Cfg.ShutdownAtMs = at + g.Range(500, 3000)
 	case "disconnect":
 		sg.add(refsn.Pkt{Type: refsn.DISCONNECT})
 		if g.Bool(0.6) {
